@@ -61,7 +61,9 @@ func (sel *Selection) findSlice(segs []*Path) (*Selection, error) {
 			}
 			copy := *p
 			copy.parent = p
-			copy.Path = segs[i]
+			// the parsed segment only knows the start of this Find as its
+			// ancestor, the selection knows the whole way from the root
+			copy.Path = &Path{Parent: p.Path, Meta: segs[i].Meta}
 			return &copy, nil
 		} else if meta.IsList(segs[i].Meta) || meta.IsContainer(segs[i].Meta) {
 			r := &ChildRequest{
